@@ -54,6 +54,13 @@ def gen_budget(rng, profile='migrate', year=2025):
         rows = st.gen_rows(rng, n_rows, first_id=rid, year=year)
         rid += len(rows) + 1
         st.fill_caps(rng, lay, rows)
+        if profile == 'full' and rows and rng.random() < 0.2 and lay['delimiter'] != 'regex':
+            # one line of the export is damaged (a date that is none): skipped on its own, everything else is read
+            bad_ = dict(rows[rng.randrange(len(rows))], id=rid + len(rows) + 50)
+            cells_ = st.row_cells(lay, bad_)
+            cells_[lay['cols'].index('date')] = 'Pending'
+            bad_['raw'] = st.join_cells(lay, cells_)
+            rows.insert(rng.randint(0, len(rows)), bad_)
         file = 'data/%s.csv' % nm.lower()
         if profile == 'full' and rng.random() < 0.25:
             # what a statement file is called says nothing about how it is read
